@@ -91,7 +91,7 @@ def run_case(case, ctx):
     import circuitgraph as cg
 
     p = case["c"]
-    c = build(p)
+    c = build(p, case.get("ord"))
     ev = {"kind": case["op"], "c": p, "exc": ""}
     nsp = sum(1 for t in p["ty"] if t in ("input", "bb_output"))
     if case["op"] == "model_count":
